@@ -5,7 +5,7 @@
 From Coq Require Import Qround Qabs.
 From DA Require Import Prelude NDArray Array PyRT.
 From DA.Model Require Import Value Reshape SliceSpec Indexing Align Transform Flatten Attrs.
-From DA.Proofs Require Import C10_proofs C01_proofs C03_proofs C07_proofs C04_proofs C08_proofs C09_proofs C11_proofs C12_proofs C17_proofs C18_proofs C16_proofs.
+From DA.Proofs Require Import C10_proofs C01_proofs C03_proofs C07_proofs C04_proofs C08_proofs C09_proofs C11_proofs C12_proofs C17_proofs C18_proofs C16_proofs C05_proofs C16_reshape_kept.
 Open Scope nat_scope.
 
 Theorem C16_set_public : forall p,
@@ -67,6 +67,19 @@ Print Assumptions C16_kept_diff.
 Theorem C16_kept_transpose : forall p a r, wf_shape a -> transpose_pos p a = Ok r -> attrs r = attrs a.
 Proof. exact transpose_keeps_attrs. Qed.
 Print Assumptions C16_kept_transpose.
+Theorem C16_kept_repeat : forall k labs rf a r, wf_shape a -> repeat k labs rf a = Ok r -> attrs r = attrs a.
+Proof. exact repeat_keeps_attrs. Qed.
+Print Assumptions C16_kept_repeat.
+Theorem C16_kept_newaxis : forall name v pos a r, wf_shape a -> newaxis name v pos a = Ok r -> attrs r = attrs a.
+Proof. intros name [[k labs]|]; [exact (newaxis_values_keeps_attrs name k labs) | exact (newaxis_keeps_attrs name)]. Qed.
+Print Assumptions C16_kept_newaxis.
+Theorem C16_kept_squeeze : forall rf a r, wf_shape a -> squeeze (Some rf) a = Ok r -> attrs r = attrs a.
+Proof. exact squeeze_keeps_attrs. Qed.
+Print Assumptions C16_kept_squeeze.
+Theorem C16_kept_broadcast : forall newaxes a r,
+  WF a -> ~ In EmptyString (map aname newaxes) -> broadcast newaxes a = Ok r -> attrs r = attrs a.
+Proof. exact broadcast_keeps_attrs. Qed.
+Print Assumptions C16_kept_broadcast.
 Theorem C16_kept_flatten : forall names ins a r, group_at names ins a = Ok r -> attrs r = attrs a.
 Proof. intros names ins a r H. destruct (group_at_spec names ins a r H) as [g [_ [_ [Hat _]]]]. exact Hat. Qed.
 Print Assumptions C16_kept_flatten.
